@@ -187,6 +187,7 @@ func cmdChild(props map[string]Property, args []string) int {
 	}()
 	env := &Env{Tier: *tier, Seed: *seed, Out: col}
 	col.seed, col.tier = *seed, *tier
+	col.Known, _ = LoadKnown(filepath.Join(verifDir(), "known_findings.json"))
 	lastFlush := time.Now()
 	n := p.Units(*tier, *seed)
 	for u := 0; u < n; u++ {
@@ -638,7 +639,7 @@ func cmdRun(props map[string]Property, args []string) int {
 	ev.Coverage["exhaustive"] = false
 	ev.Coverage["shards"] = n
 	ev.Coverage["units"] = units
-	ev.Coverage["known_finding_hits"] = knownHits
+	ev.Coverage["known_finding_hits"] = total.Stats["known_finding_hits"]
 	ev.Coverage["notes"] = total.Notes
 	ev.Coverage["infra_trouble"] = infra
 	p.Describe(ev)
@@ -688,7 +689,7 @@ func runChild(p Property, hook ChildHook, self, scratch, tier string, seed uint6
 		args = append(args, "-skip", strings.Join(ss, ","))
 	}
 	cmd := exec.Command(self, args...)
-	cmd.Env = append(os.Environ(), "GOMAXPROCS=2")
+	cmd.Env = append(os.Environ(), "GOMAXPROCS=2", "VERIF_SCRATCH="+dir)
 	if hook != nil {
 		for _, e := range hook.ChildEnv(tier) {
 			cmd.Env = append(cmd.Env, strings.ReplaceAll(e, "$SCRATCH", dir))
